@@ -4,7 +4,7 @@ import json
 import os
 
 from . import findings
-from .pool import Pool
+from .pool import Pool, env_of, group_for_env
 
 
 def replay_file(path, repo):
@@ -13,8 +13,11 @@ def replay_file(path, repo):
     sc, ops = rec["scenario"], rec["ops"]
     want = rec.get("violation", {})
     if rec.get("class") == "I5" or want.get("invariant") == "I5":
-        hs = rec.get("hashseeds", [1001, 7001])
-        pool = Pool(repo, {"A": (1, hs[0]), "B": (1, hs[1])})
+        if rec.get("envs"):
+            envs = rec["envs"]
+        else:  # files written before twins differed in more than the hash seed
+            envs = [env_of(h) for h in rec.get("hashseeds", [1001, 7001])]
+        pool = Pool(repo, {"A": group_for_env(envs[0]), "B": group_for_env(envs[1])})
         try:
             ra = pool.submit({"t": "replay", "scenario": sc, "ops": ops}, "A").result()
             rb = pool.submit({"t": "replay", "scenario": sc, "ops": ops}, "B").result()
